@@ -20,30 +20,37 @@ structure Grow (s s' : BSt) : Prop where
   buf : ∀ j, (s.th j).buf <+: (s'.th j).buf
   chain : ∀ j, chain (s.th j) <+: chain (s'.th j)
   acc : ∀ j, (s.th j).accepted <+: (s'.th j).accepted
+  /-- whatever is accepted goes to the pending list: the popped part keeps its length -/
+  bal : ∀ j, (s'.th j).accepted.length + (PB.chain (s.th j)).length = (s.th j).accepted.length + (PB.chain (s'.th j)).length
 
 theorem Grow.refl (s : BSt) : Grow s s :=
-  ⟨rfl, Nat.le_refl _, fun _ h => h, fun _ => List.prefix_refl _, fun _ => List.prefix_refl _, fun _ => List.prefix_refl _⟩
+  ⟨rfl, Nat.le_refl _, fun _ h => h, fun _ => List.prefix_refl _, fun _ => List.prefix_refl _, fun _ => List.prefix_refl _,
+   fun _ => rfl⟩
 
 theorem Grow.trans {a b c : BSt} (h1 : Grow a b) (h2 : Grow b c) : Grow a c :=
   ⟨h2.cfg.trans h1.cfg, Nat.le_trans h1.now h2.now, fun i hi => h2.reg i (h1.reg i hi),
-   fun j => (h1.buf j).trans (h2.buf j), fun j => (h1.chain j).trans (h2.chain j), fun j => (h1.acc j).trans (h2.acc j)⟩
+   fun j => (h1.buf j).trans (h2.buf j), fun j => (h1.chain j).trans (h2.chain j), fun j => (h1.acc j).trans (h2.acc j),
+   fun j => by have := h1.bal j; have := h2.bal j; omega⟩
 
 theorem Grow.ofEq {s s' : BSt} (h1 : s'.ths = s.ths) (h2 : s'.cfg = s.cfg) (h3 : s'.now = s.now)
     (h4 : s'.registry = s.registry) : Grow s s' := by
   have : ∀ j, s'.th j = s.th j := fun j => by simp only [BSt.th, h1]
   exact ⟨h2, Nat.le_of_eq h3.symm, fun i hi => by rw [h4]; exact hi, fun j => by rw [this]; exact List.prefix_refl _,
-    fun j => by rw [this]; exact List.prefix_refl _, fun j => by rw [this]; exact List.prefix_refl _⟩
+    fun j => by rw [this]; exact List.prefix_refl _, fun j => by rw [this]; exact List.prefix_refl _,
+    fun j => by rw [this]⟩
 
 theorem Fr.grow {s s' : BSt} (h : Fr s s') : Grow s s' :=
   ⟨h.cfg, Nat.le_of_eq h.now.symm, fun i hi => by rw [h.reg]; exact hi,
    fun j => by obtain ⟨l, e⟩ := (h.th j).buf; rw [e]; exact List.prefix_append _ _,
    fun j => by rw [(h.th j).chain]; exact List.prefix_refl _,
-   fun j => by rw [(h.th j).acc]; exact List.prefix_refl _⟩
+   fun j => by rw [(h.th j).acc]; exact List.prefix_refl _,
+   fun j => by rw [(h.th j).acc, (h.th j).chain]⟩
 
 theorem Grow.setTh (s : BSt) (i : Nat) (f : Th → Th) (hb : (s.th i).buf <+: (f (s.th i)).buf)
-    (hc : PB.chain (s.th i) <+: PB.chain (f (s.th i))) (ha : (s.th i).accepted <+: (f (s.th i)).accepted) :
+    (hc : PB.chain (s.th i) <+: PB.chain (f (s.th i))) (ha : (s.th i).accepted <+: (f (s.th i)).accepted)
+    (hbal : (f (s.th i)).accepted.length + (PB.chain (s.th i)).length = (s.th i).accepted.length + (PB.chain (f (s.th i))).length) :
     Grow s (s.setTh i f) := by
-  refine ⟨rfl, Nat.le_refl _, fun _ h => h, fun j => ?_, fun j => ?_, fun j => ?_⟩
+  refine ⟨rfl, Nat.le_refl _, fun _ h => h, fun j => ?_, fun j => ?_, fun j => ?_, fun j => ?_⟩
   · rcases th_setTh_cases s i j f with h1 | ⟨rfl, _, h1⟩
     · rw [h1]; exact List.prefix_refl _
     · rw [h1]; exact hb
@@ -53,11 +60,14 @@ theorem Grow.setTh (s : BSt) (i : Nat) (f : Th → Th) (hb : (s.th i).buf <+: (f
   · rcases th_setTh_cases s i j f with h1 | ⟨rfl, _, h1⟩
     · rw [h1]; exact List.prefix_refl _
     · rw [h1]; exact ha
+  · rcases th_setTh_cases s i j f with h1 | ⟨rfl, _, h1⟩
+    · rw [h1]
+    · rw [h1]; exact hbal
 
 theorem Grow.setTh_same (s : BSt) (i : Nat) (f : Th → Th) (hb : ∀ t, (f t).buf = t.buf) (hq : ∀ t, (f t).qStmts = t.qStmts)
     (ha : ∀ t, (f t).accepted = t.accepted) : Grow s (s.setTh i f) :=
   Grow.setTh s i f (by rw [hb]; exact List.prefix_refl _) (by simp only [PB.chain, hb, hq]; exact List.prefix_refl _)
-    (by rw [ha]; exact List.prefix_refl _)
+    (by rw [ha]; exact List.prefix_refl _) (by simp only [PB.chain, hb, hq, ha])
 
 theorem Grow.buf_ne {s s' : BSt} (h : Grow s s') {j : Nat} (hb : (s.th j).buf ≠ []) : (s'.th j).buf ≠ [] := by
   obtain ⟨l, e⟩ := h.buf j
@@ -85,7 +95,7 @@ theorem grow_ensureCtx (s : BSt) (a : Nat) : Grow s (Backend.ensureCtx s a).1 :=
     have hth : ∀ j, ((({ s with ths := s.ths ++ [mkTh s.cfg a], registry := s.registry ++ [s.ths.length], newFlag := true } : BSt).setActor a
         (fun x => { x with ctx := some s.ths.length })).th j) = if j = s.ths.length then mkTh s.cfg a else s.th j :=
       fun j => th_append s _ j
-    refine ⟨rfl, Nat.le_refl _, fun i hi => List.mem_append_left _ hi, fun j => ?_, fun j => ?_, fun j => ?_⟩
+    refine ⟨rfl, Nat.le_refl _, fun i hi => List.mem_append_left _ hi, fun j => ?_, fun j => ?_, fun j => ?_, fun j => ?_⟩
     · rw [hth]; split
       · rename_i hj; rw [hj, th_lt_or_default s _ (Nat.le_refl _)]; exact List.prefix_refl _
       · exact List.prefix_refl _
@@ -95,14 +105,20 @@ theorem grow_ensureCtx (s : BSt) (a : Nat) : Grow s (Backend.ensureCtx s a).1 :=
     · rw [hth]; split
       · rename_i hj; rw [hj, th_lt_or_default s _ (Nat.le_refl _)]; exact List.prefix_refl _
       · exact List.prefix_refl _
+    · rw [hth]; split
+      · rename_i hj; rw [hj, th_lt_or_default s _ (Nat.le_refl _)]; rfl
+      · rfl
 
 theorem grow_tryEnq (s : BSt) (ci : Nat) (st : Stmt) : Grow s (Backend.tryEnq s ci st).1 := by
   unfold Backend.tryEnq
   simp only
   split
-  · refine Grow.setTh s ci _ (List.prefix_refl _) ?_ (List.prefix_append _ _)
-    show (s.th ci).buf ++ (s.th ci).qStmts <+: (s.th ci).buf ++ ((s.th ci).qStmts ++ [{ st with enqAt := s.now }])
-    rw [← List.append_assoc]; exact List.prefix_append _ _
+  · refine Grow.setTh s ci _ (List.prefix_refl _) ?_ (List.prefix_append _ _) ?_
+    · show (s.th ci).buf ++ (s.th ci).qStmts <+: (s.th ci).buf ++ ((s.th ci).qStmts ++ [{ st with enqAt := s.now }])
+      rw [← List.append_assoc]; exact List.prefix_append _ _
+    · show ((s.th ci).accepted ++ [{ st with enqAt := s.now }]).length + ((s.th ci).buf ++ (s.th ci).qStmts).length =
+        (s.th ci).accepted.length + ((s.th ci).buf ++ ((s.th ci).qStmts ++ [{ st with enqAt := s.now }])).length
+      simp only [List.length_append, List.length_cons, List.length_nil]; omega
   · exact Grow.setTh_same s ci _ (fun _ => rfl) (fun _ => rfl) (fun _ => rfl)
 
 theorem grow_afterEnq (s : BSt) (a : Nat) (st : Stmt) (cont : Nat) : Grow s (Backend.afterEnq s a st cont).1 := by
@@ -184,7 +200,7 @@ theorem reapSinks_core (s : BSt) (l : List Nat) :
 theorem grow_applyFront (s : BSt) (f : FOp) : Grow s (Backend.applyFront s f).1 := by
   cases f with
   | tick dt => exact ⟨rfl, Nat.le_add_right _ _, fun _ h => h, fun _ => List.prefix_refl _, fun _ => List.prefix_refl _,
-      fun _ => List.prefix_refl _⟩
+      fun _ => List.prefix_refl _, fun _ => rfl⟩
   | tstart a => simp only [Backend.applyFront]; split <;> exact Grow.ofEq rfl rfl rfl rfl
   | texit a =>
     simp only [Backend.applyFront]
